@@ -107,6 +107,26 @@ func (c *Config) chain(s, d string) []ProcCfg {
 	return out
 }
 
+// accountingChain: the chain from src to dst contains a processor whose results need
+// accounting (filter, split, error, short answers, or a condition).
+func (c *Config) accountingChain(src, dst string) bool {
+	for _, pc := range c.chain(src, dst) {
+		if pc.FilterPct > 0 || pc.SplitPct > 0 || pc.ErrorPct > 0 || pc.ShortPct > 0 || pc.Cond != "" {
+			return true
+		}
+	}
+	return false
+}
+
+func (c *Config) accountingChainAny(src string) bool {
+	for _, d := range c.Dests {
+		if c.accountingChain(src, d.ID) {
+			return true
+		}
+	}
+	return false
+}
+
 // scripted verdict of processor pc for a record (same function the fake uses).
 func scriptVerdict(seed int64, pc ProcCfg, id RecID) string {
 	p := simProc{sys: &ProcSys{cfg: pc, w: &World{cfg: &Config{Seed: seed}}}}
@@ -312,6 +332,12 @@ func (o *Oracles) onEvent(w *World, e *Event) {
 			ok, why := o.accepted(w, D)
 			if !ok {
 				w.violate("C01", "ack-before-confirmation", fmt.Sprintf("source %s was acked record %d (delivery %d) but %s", e.Ent, id.Idx, id.N, why))
+				if o.ctl.forceStopIssued {
+					w.violate("C12", "force-stop-acked-unhandled", fmt.Sprintf("after a force stop source %s was acked record %d (delivery %d) but %s", e.Ent, id.Idx, id.N, why))
+				}
+				if !hostile && strings.Contains(why, "never written") && w.cfg.accountingChainAny(id.Src) {
+					w.violate("C08", "leaf-lost", fmt.Sprintf("record %s/%d (delivery %d) was acknowledged to its source but %s: a piece the scripted processor chain produces never reached its destination", e.Ent, id.Idx, id.N, why))
+				}
 			} else {
 				o.markHandled(id.Src, id.Idx)
 				if why == "dlq" {
@@ -326,6 +352,9 @@ func (o *Oracles) onEvent(w *World, e *Event) {
 					have = strconv.Itoa(di)
 				}
 				w.violate("C02", "ack-before-durable", fmt.Sprintf("source %s was acked record %d but the store durably holds position index %s", e.Ent, id.Idx, have))
+				// the same event is C03's second clause: a crash right now reopens the source at
+				// the stored position although the upstream may already have discarded up to here
+				w.violate("C03", "upstream-told-beyond-durable", fmt.Sprintf("source %s was told that record %d is safe to discard while the store durably holds position index %s: a crash at this instant reopens the source behind what the upstream was told to discard", e.Ent, id.Idx, have))
 			}
 		}
 	case "DST_WRITE":
@@ -334,6 +363,11 @@ func (o *Oracles) onEvent(w *World, e *Event) {
 			lk := leafKey{Dst: e.Ent, Src: id.Src, Idx: id.Idx, N: id.N, Path: id.Path}
 			if _, dup := o.written[lk]; dup && !hostileSrc {
 				w.violate("C05", "duplicate-write-in-run", fmt.Sprintf("destination %s received %s twice for the same delivery", e.Ent, id))
+				if !hostile && w.cfg.accountingChain(id.Src, e.Ent) {
+					// C08: with filtering / splitting / erroring / short-answering / conditional
+					// processors on the way, every leaf still reaches the destination exactly once
+					w.violate("C08", "leaf-written-twice", fmt.Sprintf("destination %s received %s twice for the same delivery although the scripted processor chain produces it once", e.Ent, id))
+				}
 			}
 			o.written[lk] = e.Seq
 			// C05 order per (destination session, source)
@@ -486,6 +520,9 @@ func (o *Oracles) onDurableChange(w *World, e *Event) {
 			for i := 0; i <= idx; i++ {
 				if !o.isHandled(w, sc.ID, i) {
 					w.violate("C02", "durable-past-unhandled", fmt.Sprintf("store committed position index %d for source %s but record %d is not confirmed by all destinations, dead-lettered or filtered", idx, sc.ID, i))
+					if o.ctl.forceStopIssued {
+						w.violate("C12", "force-stop-committed-unhandled", fmt.Sprintf("after a force stop the store committed position index %d for source %s but record %d was never handled: the next start skips it", idx, sc.ID, i))
+					}
 					// C07: if the record is one the DLQ itself refused, the failed record was given up:
 					// neither delivered nor dead-lettered, yet the pipeline moved past it
 					for n := 1; n <= sys.sessions; n++ {
@@ -660,6 +697,9 @@ func (o *Oracles) finalChecks(w *World) {
 				continue // waiting for a pipeline that is (reported) alive is what wait does
 			}
 			w.violate("C11", "call-never-returns", fmt.Sprintf("control call %q (event #%d) has not returned after %d ms of simulated idleness; every plugin and store call has been served (stored status: %s)", strings.TrimSpace(note), seq, idleMs, statusName(st)))
+			if strings.HasPrefix(note, "reconfigure") {
+				w.violate("C13", "reconfigure-never-answered", fmt.Sprintf("live reconfigure request %q (event #%d) was neither applied nor refused: it has not returned after %d ms of simulated idleness", strings.TrimSpace(note), seq, idleMs))
+			}
 		}
 		ms := st
 		if w.memStatus != nil && w.memStatus() != 0 {
